@@ -1,3 +1,181 @@
--- stub: replaced by the property author
+import SupervisorModel.Model.Reread
+/-
+  C15 — reread reports exactly the difference, update converges to the file.
+  Property theorems over Model/Reread.lean; the compared attribute lists and class facts (`Sv.Gen.Reread.*`)
+  are regenerated from /repo on each run.
+-/
+set_option linter.unusedSimpArgs false
+set_option maxRecDepth 4000
 namespace Sv.Props.C15
+open Sv Sv.Config Sv.Reread Sv.Gen.Reread
+
+/-- "equal, or either side is AUTO" -/
+def sameOrAuto (a b : LogFile) : Prop := a = .auto ∨ b = .auto ∨ a = b
+
+theorem lfEq_iff (a b : LogFile) : lfEq a b = true ↔ sameOrAuto a b := by
+  simp only [lfEq, pconfigEqAutomaticWildcard, Bool.true_and, Bool.or_eq_true, beq_iff_eq, sameOrAuto]
+  constructor
+  · rintro ((h | h) | h)
+    · exact Or.inl h
+    · exact Or.inr (Or.inl h)
+    · exact Or.inr (Or.inr h)
+  · rintro (h | h | h)
+    · exact Or.inl (Or.inl h)
+    · exact Or.inl (Or.inr h)
+    · exact Or.inr h
+
+/-- **eq_characterised.**  Two process configurations compare equal exactly when *every* option agrees, a log
+    file set to AUTO matching any file name (so a difference in any option is noticed).  The list of compared
+    attributes is the generated `pconfigEqAttrs`; dropping one from ProcessConfig breaks this proof. -/
+theorem eq_characterised (a b : PConfig) :
+    pconfigEq a b = true ↔
+      a.name = b.name ∧ a.uid = b.uid ∧ a.command = b.command ∧ a.directory = b.directory ∧ a.umask = b.umask ∧
+      a.priority = b.priority ∧ a.autostart = b.autostart ∧ a.autorestart = b.autorestart ∧ a.startsecs = b.startsecs ∧
+      a.startretries = b.startretries ∧ sameOrAuto a.stdout_logfile b.stdout_logfile ∧
+      a.stdout_capture_maxbytes = b.stdout_capture_maxbytes ∧ a.stdout_events_enabled = b.stdout_events_enabled ∧
+      a.stdout_syslog = b.stdout_syslog ∧ a.stdout_logfile_backups = b.stdout_logfile_backups ∧
+      a.stdout_logfile_maxbytes = b.stdout_logfile_maxbytes ∧ sameOrAuto a.stderr_logfile b.stderr_logfile ∧
+      a.stderr_capture_maxbytes = b.stderr_capture_maxbytes ∧ a.stderr_logfile_backups = b.stderr_logfile_backups ∧
+      a.stderr_logfile_maxbytes = b.stderr_logfile_maxbytes ∧ a.stderr_events_enabled = b.stderr_events_enabled ∧
+      a.stderr_syslog = b.stderr_syslog ∧ a.stopsignal = b.stopsignal ∧ a.stopwaitsecs = b.stopwaitsecs ∧
+      a.stopasgroup = b.stopasgroup ∧ a.killasgroup = b.killasgroup ∧ a.exitcodes = b.exitcodes ∧
+      a.redirect_stderr = b.redirect_stderr ∧ dictEq a.environment b.environment = true ∧ a.serverurl = b.serverurl := by
+  simp only [pconfigEq, pconfigEqAttrs, List.all_cons, List.all_nil, Bool.and_true, Bool.and_eq_true]
+  simp [attrEq, lfEq_iff]
+
+theorem dictEq_refl (e : KV) : dictEq e e = true := by simp [dictEq]
+
+/-- **eq_refl.**  A configuration equals itself: an unchanged file reports nothing. -/
+theorem pconfigEq_refl (a : PConfig) : pconfigEq a a = true := by
+  rw [eq_characterised]
+  simp [sameOrAuto, dictEq_refl]
+
+theorem plistEq_refl (l : List PConfig) : plistEq l l = true := by
+  induction l with
+  | nil => rfl
+  | cons a as ih => simp [plistEq, pconfigEq_refl, ih]
+
+theorem eq_refl (g : GConfig) : gconfigEq g g = true := by
+  cases hk : g.kind <;>
+    simp [gconfigEq, hk, groupEq, isInstance, gkindClass, eqBaseClass, classBases, groupEqAttrs, poolEqAttrs, fcgiEqAttrs,
+      gAttrEq, plistEq_refl, fcgiEqDelegatesToGroup, List.lookup]
+
+theorem ne_self (g : GConfig) : gconfigNe g g = false := by
+  simp [gconfigNe, eq_refl]
+
+/-! ### diff_to_active -/
+
+/-- **diff_exact.**  added = the file's groups whose name is not active; removed = the active groups whose name is
+    not in the file; changed = the file's groups that are active under the same name with a configuration that
+    does not compare equal (`gconfigNe`, i.e. Python's `!=` with its subclass priority); the three are pairwise
+    disjoint by name. -/
+theorem diff_exact (new cur : List GConfig) :
+    (∀ g, g ∈ (diffToActive new cur).added ↔ g ∈ new ∧ lastNamed cur g.name = none) ∧
+    (∀ g, g ∈ (diffToActive new cur).removed ↔ g ∈ cur ∧ lastNamed new g.name = none) ∧
+    (∀ g, g ∈ (diffToActive new cur).changed ↔ g ∈ new ∧ ∃ c, lastNamed cur g.name = some c ∧ gconfigNe g c = true) ∧
+    (∀ g, g ∈ (diffToActive new cur).added → g ∉ (diffToActive new cur).changed) := by
+  have hch : ∀ g, g ∈ (diffToActive new cur).changed ↔ g ∈ new ∧ ∃ c, lastNamed cur g.name = some c ∧ gconfigNe g c = true := by
+    intro g
+    simp only [diffToActive, List.mem_filter]
+    constructor
+    · rintro ⟨hm, hne⟩
+      cases hl : lastNamed cur g.name with
+      | none => rw [hl] at hne; simp [ne_self] at hne
+      | some c => rw [hl] at hne; exact ⟨hm, c, rfl, by simpa using hne⟩
+    · rintro ⟨hm, c, hl, hne⟩
+      exact ⟨hm, by rw [hl]; simpa using hne⟩
+  refine ⟨?_, ?_, hch, ?_⟩
+  · intro g; simp [diffToActive, List.mem_filter]
+  · intro g; simp [diffToActive, List.mem_filter]
+  · intro g ha hc
+    have h1 : lastNamed cur g.name = none := by
+      have := ha; simp [diffToActive, List.mem_filter] at this; exact this.2
+    obtain ⟨_, c, h2, _⟩ := (hch g).mp hc
+    rw [h1] at h2; cases h2
+
+/-- names found by `lastNamed` are names of the list -/
+theorem lastNamed_some (l : List GConfig) (n : String) (c : GConfig) (h : lastNamed l n = some c) : c ∈ l ∧ c.name = n := by
+  unfold lastNamed at h
+  have := List.find?_some h
+  have hm := List.mem_of_find?_eq_some h
+  exact ⟨List.mem_reverse.mp hm, by simpa using this⟩
+
+theorem lastNamed_none (l : List GConfig) (n : String) (h : lastNamed l n = none) : ∀ c ∈ l, c.name ≠ n := by
+  unfold lastNamed at h
+  intro c hc
+  have := List.find?_eq_none.mp h c (List.mem_reverse.mpr hc)
+  simpa using this
+
+/-- removed groups are not in the file, added and changed ones are: "removed" is disjoint from both by name -/
+theorem removed_disjoint (new cur : List GConfig) (r : GConfig) (hr : r ∈ (diffToActive new cur).removed) :
+    ∀ g ∈ new, g.name ≠ r.name := by
+  obtain ⟨_, h⟩ := ((diff_exact new cur).2.1 r).mp hr
+  exact lastNamed_none new r.name h
+
+/-! ### reread changes nothing; CANT_REREAD -/
+
+/-- **reread_changes_nothing.**  reloadConfig never touches the active groups, their processes or pids. -/
+theorem reread_changes_nothing (s : State) (parsed : Except String (List GConfig)) :
+    (reloadConfig s parsed).2.active = s.active := by
+  cases parsed <;> simp [reloadConfig]
+
+/-- **cant_reread_leaves_state.**  A file that cannot be parsed is answered CANT_REREAD and leaves every active
+    group and the configuration last read as they were. -/
+theorem cant_reread_leaves_state (s : State) (e : String) :
+    reloadConfig s (.error e) = (.error .cantReread, s) := rfl
+
+/-- an unchanged file (group names unique, as the daemon's group table requires) reports nothing -/
+theorem unchanged_reports_nothing (gs : List GConfig) (hu : ∀ g ∈ gs, lastNamed gs g.name = some g) :
+    (diffToActive gs gs).changed = [] ∧ (diffToActive gs gs).added = [] ∧ (diffToActive gs gs).removed = [] := by
+  refine ⟨?_, ?_, ?_⟩
+  · rw [List.eq_nil_iff_forall_not_mem]
+    intro g hg
+    obtain ⟨hm, c, hl, hne⟩ := ((diff_exact gs gs).2.2.1 g).mp hg
+    rw [hu g hm] at hl
+    injection hl with hl
+    subst hl
+    rw [ne_self] at hne
+    cases hne
+  · rw [List.eq_nil_iff_forall_not_mem]
+    intro g hg
+    obtain ⟨hm, hl⟩ := ((diff_exact gs gs).1 g).mp hg
+    rw [hu g hm] at hl; cases hl
+  · rw [List.eq_nil_iff_forall_not_mem]
+    intro g hg
+    obtain ⟨hm, hl⟩ := ((diff_exact gs gs).2.1 g).mp hg
+    rw [hu g hm] at hl; cases hl
+
+/-! ### supervisorctl update -/
+
+def callGroup : Call → String
+  | .stop g => g | .remove g => g | .add g => g
+
+/-- **restricted_update.**  `update g1 g2 …` only ever stops, removes or adds the named groups. -/
+theorem restricted_update (valid added changed removed : List String) (hv : valid ≠ []) :
+    ∀ c ∈ updateCalls valid added changed removed, callGroup c ∈ valid := by
+  intro c hc
+  have hsel : ∀ g, selected valid g = true → g ∈ valid := by
+    intro g hg
+    simp only [selected, Bool.or_eq_true, List.isEmpty_iff] at hg
+    rcases hg with h | h
+    · exact absurd h hv
+    · exact List.contains_iff_mem.mp h
+  simp only [updateCalls, List.mem_append, List.mem_flatMap, List.mem_filter, List.mem_map] at hc
+  rcases hc with (⟨g, ⟨_, hs⟩, hm⟩ | ⟨g, ⟨_, hs⟩, hm⟩) | ⟨g, ⟨_, hs⟩, rfl⟩
+  · simp only [List.mem_cons, List.not_mem_nil, or_false] at hm
+    rcases hm with rfl | rfl <;> exact hsel g hs
+  · simp only [List.mem_cons, List.not_mem_nil, or_false] at hm
+    rcases hm with rfl | rfl | rfl <;> exact hsel g hs
+  · exact hsel g hs
+
+/-- the call sequence of an unrestricted update: removed groups are stopped then removed, changed groups are
+    stopped, removed and added again, added groups are added — in that order, nothing else -/
+theorem update_sequence (added changed removed : List String) :
+    updateCalls [] added changed removed =
+      (removed.flatMap fun g => [Call.stop g, Call.remove g]) ++
+      (changed.flatMap fun g => [Call.stop g, Call.remove g, Call.add g]) ++ added.map Call.add := by
+  have hf : ∀ l : List String, List.filter (selected []) l = l := by
+    intro l; apply List.filter_eq_self.mpr; intro a _; simp [selected]
+  simp [updateCalls, hf]
+
 end Sv.Props.C15
